@@ -312,7 +312,13 @@ fn script_timing(rng: &mut Rng, tier: Tier, ex: &mut dyn FnMut(&str) -> String) 
     ex(&cfg_line(10_000_000, &ch, &ch));
     ex("cli 0");
     ex("add 100");
-    ex("setc 0");
+    // the transport reports the connection as established at once, or only after the application has already submitted and
+    // flushed messages on the fresh (Connecting) client; later it may flap Connecting -> Connected: the status never
+    // touches the resend timers (seeded C15u)
+    let connect_at = if rng.chance(1, 3) { rng.range(1, 3) } else { 0 };
+    if connect_at == 0 {
+        ex("setc 0");
+    }
     let ticks = if tier == Tier::Quick { rng.range(6, 16) } else { rng.range(10, 40) };
     let mode = rng.below(4);
     let mut net = Net::new();
@@ -334,6 +340,12 @@ fn script_timing(rng: &mut Rng, tier: Tier, ex: &mut dyn FnMut(&str) -> String) 
             2 => rng.pick(&[resend / 2, resend / 3, resend]), // shorter ticks
             _ => rng.range(1, 2 * resend),                // irregular
         };
+        if connect_at != 0 && tick == connect_at {
+            ex("setc 0");
+        } else if tick > connect_at && rng.chance(1, 8) {
+            ex("setg 0");
+            ex("setc 0");
+        }
         ex(&format!("upd c0 {}", dt));
         ex(&format!("upd srv {}", dt));
         ex("dump c0");
@@ -1371,6 +1383,15 @@ fn script_api(rng: &mut Rng, tier: Tier, ex: &mut dyn FnMut(&str) -> String) {
                     }
                     ex(&format!("flush s{}", id));
                 }
+                if rng.chance(1, 3) {
+                    // the disconnected connection lingers for a long time before the transport removes it: it keeps its
+                    // first reason and its removal is still reported (seeded C12u: a silent reaper in `update`)
+                    ex(&format!("upd srv {}", rng.pick(&[31_000_000u64, 120_000_000, 3_600_000_000])));
+                    ex(&format!("stat s{}", id));
+                    ex(&format!("rem {}", id));
+                    ex("ev");
+                    ex("ev");
+                }
             }
             4 => {
                 if rng.chance(1, 3) {
@@ -1427,7 +1448,7 @@ fn script_api(rng: &mut Rng, tier: Tier, ex: &mut dyn FnMut(&str) -> String) {
                 }
             }
             15 => {
-                ex(&format!("upd srv {}", rng.pick(&[16_000u64, 400_000, 3_100_000])));
+                ex(&format!("upd srv {}", rng.pick(&[16_000u64, 400_000, 3_100_000, 3_100_000, 45_000_000])));
                 if handles.contains(&h) {
                     ex(&format!("upd c{} {}", h, rng.pick(&[16_000u64, 400_000])));
                 }
@@ -2014,6 +2035,44 @@ fn volume_ops(case: usize) -> Vec<String> {
             }
             ops.push("stat c0".into());
             ops.push("dump c0".into());
+        }
+        10 => {
+            // the ack packet is the recorded set also in a tick whose channels use the whole budget (seeded C16t): the
+            // receiver holds three disjoint ranges {0},{2},{4}; its own reliable traffic takes exactly / nearly all of the
+            // 60 000 bytes of the tick; dump + flush (oracle ack-is-the-recorded-set), then the peer acknowledges the ack
+            let c = chans(300_000);
+            ops.push(cfg_line(60_000, &c, &c));
+            ops.extend(["cli 0", "add 100", "setc 0"].iter().map(|x| x.to_string()));
+            for k in 0..5u8 {
+                ops.push(format!("send s100 2 {}", hex(&pat(20, k))));
+                ops.push("upd srv 1000".into());
+                ops.push("flush s100".into());
+            }
+            for k in [0, 2, 4] {
+                ops.push(format!("dlv c0 s100 {}", k));
+            }
+            let mut emitted = 0usize;
+            for (round, len) in [60_000usize, 59_990, 58_801, 61_000].iter().enumerate() {
+                ops.push(format!("send c0 2 {}", hex(&pat(*len, 30 + round as u8))));
+                ops.push("upd c0 1000".into());
+                ops.push("dump c0".into());
+                ops.push("flush c0".into());
+                // everything of this flush reaches the server (indices beyond it answer nohist on both sides alike)
+                for k in emitted..emitted + 60 {
+                    ops.push(format!("dlv s100 c0 {}", k));
+                }
+                emitted += if *len > 60_000 { 51 } else { 51 };
+                ops.push("recv s100 2".into());
+                ops.push("dump s100".into());
+                ops.push("flush s100".into());
+                ops.push("upd c0 301000".into());
+                ops.push("upd srv 301000".into());
+            }
+            ops.push("dlv c0 s100 5".into()); // the server's first ack packet: acknowledges c0's ack packet too
+            ops.push("dump c0".into());
+            ops.push("flush c0".into());
+            ops.push("stat c0".into());
+            ops.push("stat s100".into());
         }
         _ => {
             // one tick: unreliable small messages that need two packets + reliable traffic; the reliable packet is lost,
@@ -3247,7 +3306,7 @@ pub fn profiles() -> Vec<Profile> {
     Profile {
         name: "rn-volume-seq",
         props: &["C13", "C16"],
-        cases: |_| 4,
+        cases: |_| 5,
         new_world,
         script: script_none,
         nontrivial: |_| true,
